@@ -129,6 +129,10 @@ def main():
     if sw and v and sw['token'] not in toks:
         # a solver that is slower on some of the inputs it accepts
         time.sleep(sw['ms'] / 1000.0)
+    sw = spec.get('slow_with')
+    if sw and sw['token'] in toks:
+        # slow as long as some part of the input is there (also when rejecting)
+        time.sleep(sw['ms'] / 1000.0)
     d = spec.get('delay_ms', 0)
     if d:
         time.sleep((h(spec.get('delay_seed', 0), *toks) % (d + 1)) / 1000.0)
